@@ -8,6 +8,7 @@ From Coq Require Import String ZArith NArith List Bool.
 From HV Require Import Base.Keccak Model.SetOps Gen.GenInvFilters Spec.FrontierSpec Model.FrontierModel Proofs.FrontierProofs.
 From HV Require Import Spec.StateIdSpec Model.StateIdModel Gen.GenStorageDigest Gen.GenStateId Proofs.StateIdProofs.
 From HV Require Import Spec.PathSliceSpec Model.PathSliceModel Gen.GenPathSlice Proofs.PathSliceProofs.
+From HV Require Import Spec.ProbeSpec Gen.GenProbes Model.ProbeModel Proofs.ProbeProofs.
 Import ListNotations.
 Open Scope Z_scope.
 
@@ -87,6 +88,28 @@ Theorem C15_filters_selectors_refuted :
     ~ spec_selector f test a (m_sig m) (m_sel m) (m_mut m).
 Proof. exact selector_exact_refuted. Qed.
 Print Assumptions C15_filters_selectors_refuted.
+
+(* the (account, function) pairs run from a frontier state (_compute_frontier's loop over
+   resolve_target_contracts and run_target_contract's loop over resolve_target_selectors, both call
+   sites regenerated): a function is run on an account exactly when the account is a resolved
+   target and the function is selected for THAT ADDRESS among the methods of the account's contract --
+   for all filter sets and all assignments of contracts to addresses (several accounts may be
+   instances of one contract: methods_of a1 = methods_of a2) *)
+Theorem C15_targets_per_address :
+  forall tc ec tsel esel deployed test (methods_of : Z -> list method) a m,
+    In (a, m) (frontier_targets tc ec tsel esel deployed test methods_of) <->
+    In a (resolve_target_contracts tc ec tsel deployed test) /\ In m (methods_of a) /\
+    selector_selected tsel esel a test m = true.
+Proof. exact frontier_targets_in. Qed.
+Print Assumptions C15_targets_per_address.
+
+(* two instances (addresses 2 and 3) of one contract with nop() = 7 and hit() = 9, targetSelectors
+   (2, [nop]) and (3, [hit]): each instance gets its own function *)
+Example C15_targets_instances_nonvacuous :
+  let ms := [mkMethod "nop()" 7 2; mkMethod "hit()" 9 2] in
+  frontier_targets [] [] [(2, [7]); (3, [9])] [] [1; 2; 3] 1 (fun _ => ms) =
+    [(2, mkMethod "nop()" 7 2); (3, mkMethod "hit()" 9 2)].
+Proof. reflexivity. Qed.
 
 (* ------------------------------------------------------------------ depth *)
 
@@ -327,6 +350,39 @@ Theorem C15_probe_verdict_refuted :
   verdict_pass Z ProbeInst.tgt ProbeInst.targets ProbeInst.sstep ProbeInst.sid ProbeInst.refresh ProbeInst.setup ProbeInst.inv_ok 2 = true.
 Proof. exact probe_refuted. Qed.
 Print Assumptions C15_probe_verdict_refuted.
+
+(* ------------------------------------------------------------------ assertions inside targets are checked *)
+
+(* The decisions of _compute_frontier / CounterexampleHandler about ContractContext.probes_reported
+   (skip a failing path of a marked function; mark at submission?; mark / output in the callback, given
+   the solver's answer) are regenerated from __main__.py.  For every sequence of failing paths and of
+   arriving answers -- any number of candidates, any interleaving with the solver threads -- a function
+   is marked as reported only when a counterexample for it has been output ... *)
+Theorem C15_probe_marked_only_with_cex :
+  forall (evs : list pevent) (q : Z),
+    In q (ps_reported (prun evs)) -> In q (ps_cex (prun evs)).
+Proof. exact marked_only_with_cex. Qed.
+Print Assumptions C15_probe_marked_only_with_cex.
+
+(* ... hence, when every submitted query is answered, every function with a genuine failing path (the
+   solver finds a model) gets a counterexample -- whichever refuted candidates of the same function were
+   seen before it *)
+Theorem C15_probe_genuine_reported :
+  forall (evs : list pevent) (p : Z),
+    (forall pre e post, evs = pre ++ e :: post ->
+       length (ps_submitted (prun (pre ++ [e]))) = S (length (ps_submitted (prun pre))) ->
+       In (EDone (length (ps_submitted (prun pre)))) post) ->
+    (exists pre post, evs = pre ++ EPath p RSat true :: post) ->
+    In p (ps_cex (prun evs)).
+Proof. exact genuine_reported. Qed.
+Print Assumptions C15_probe_genuine_reported.
+
+(* check() fails first on a path that the solver refutes (answer arrives), then genuinely: the second
+   candidate is submitted and reported *)
+Example C15_probe_nonvacuous :
+  ps_flags (prun [EPath 7 RUnsat false; EDone 0; EPath 7 RSat true; EDone 1; EPath 7 RSat true]) = [true; true; false] /\
+  ps_cex (prun [EPath 7 RUnsat false; EDone 0; EPath 7 RSat true; EDone 1; EPath 7 RSat true]) = [7].
+Proof. split; reflexivity. Qed.
 
 (* ------------------------------------------------------------------ non-vacuity *)
 (* the hypotheses of C15_cover are satisfiable with a non-trivial exploration (a counter with
